@@ -850,6 +850,60 @@ class Gen(object):
             return None
         return {"op": "merge", "t": self.ref(t), "x": self.ref(x), "strict": self.chance(0.5)}
 
+    def g_merge_check(self):
+        """merge_check on its own, then the merge it was asked about after the answer has gone out
+        of date.  One op per call, chosen by looking at the state: two Sections with a Property of
+        one name -> merge_check -> an edit that makes the two Properties unmergeable -> merge."""
+        from odml import dtypes as _dt
+        secs = self.secs()
+        if len(secs) < 2:
+            return None
+        for ti, xi, strict in reversed(self.U.__dict__.get("checked") or []):
+            if ti is None or xi is None or ti >= len(self.U.objs) or xi >= len(self.U.objs):
+                continue
+            t, x = self.U.objs[ti], self.U.objs[xi]
+            if kind_of(t) != "sec" or kind_of(x) != "sec" or self.chance(0.2):
+                continue
+            twins = [(c, p) for p in x.properties for c in t.properties if c.name == p.name]
+            if not twins:
+                continue
+            clash = False
+            for c, p in twins:
+                try:
+                    for v in p.values:
+                        _dt.get(v, c.dtype)
+                    if c.unit is not None and p.unit is not None and c.unit != p.unit:
+                        clash = True
+                except Exception:
+                    clash = True
+            if clash:
+                if not self.room(len(self.U.subtree(x))):
+                    return None
+                return {"op": "merge", "t": self.ref(t), "x": self.ref(x),
+                        "strict": strict if self.chance(0.8) else not strict}
+            c, p = self.pick(twins)
+            if self.chance(0.4):
+                return {"op": "set_attr", "x": self.ref(p), "attr": "unit",
+                        "v": "mV" if c.unit != "mV" and c.unit is not None else "kOhm"} \
+                    if c.unit is not None else {"op": "set_attr", "x": self.ref(c), "attr": "unit", "v": "mV"}
+            if c.dtype in ("string", "text", None):
+                return {"op": "set_values", "x": self.ref(c), "v": self.pick([7, {"list": [1, 2]}])}
+            return {"op": "set_values", "x": self.ref(p), "v": self.pick(["abc", "x y"])}
+        pairs = [(t, x) for t in secs for x in secs if t is not x and
+                 not any(a is x for a in self.U.ancestors(t)) and not any(a is t for a in self.U.ancestors(x))
+                 and any(c.name == p.name for c in t.properties for p in x.properties)]
+        if pairs and self.chance(0.8):
+            t, x = self.pick(pairs)
+        else:
+            t, x = self.pick(secs), self.pick(secs)
+            if t is not x and len(x.properties) and not len([c for c in t.properties
+                                                             if c.name == x.properties[0].name]) \
+                    and self.room(1) and self.chance(0.6):
+                # no two Sections share a Property name yet: give t one named like one of x's
+                return {"op": "create_property", "t": self.ref(t), "name": x.properties[0].name,
+                        "dtype": "string", "values": "abc"}
+        return {"op": "merge_check", "t": self.ref(t), "x": self.ref(x), "strict": self.chance(0.6)}
+
     def g_merge_self(self):
         """sec.merge() without an argument: resolve the Section's own stored link / include."""
         linked = [s for s in self.secs() if s.link is not None or s.include is not None]
